@@ -12,6 +12,7 @@ CONSTANTS
   FullOptParams = 1
   FullOptKw = 1
   KindParams = 2
+  CtxParams = 2
 INVARIANT TypeOK
 INVARIANT BindAgree
 INVARIANT Conservation
@@ -20,5 +21,6 @@ INVARIANT DeviationScope
 INVARIANT KindsOK
 INVARIANT LoggedOK
 INVARIANT Shape
+INVARIANT PlacementOK
 INVARIANT Emit
 CHECK_DEADLOCK FALSE
